@@ -35,8 +35,10 @@ out = ["# Seeded changes: which checks catch them", "",
        "|---|---|---|---|---|---|"]
 for r in rows:
     out.append("| %s | %s | %s | %s | %s | %s |" % tuple(x.replace("|", "\\|") for x in r))
-n_all = len(rows); n_c = sum(1 for r in rows if r[3] != "—")
-out += ["", "%d of %d seeded changes are caught by at least one quick check." % (n_c, n_all)]
+n_all = len(rows)
+n_c = sum(1 for r in rows if r[3] != "—" and any("thorough" not in k for k in r[3].split(", ")))
+n_t = sum(1 for r in rows if r[3] != "—" and all("thorough" in k for k in r[3].split(", ")))
+out += ["", "%d of %d seeded changes are caught by at least one quick check, %d more only by the thorough tier." % (n_c, n_all, n_t)]
 open('/verif/seeded/RESULTS.md', 'w').write("\n".join(out) + "\n")
 print("%d/%d caught" % (n_c, n_all))
 for r in rows:
